@@ -824,8 +824,7 @@ class C15(CheckBase):
                     nontrivial.append("fault:%s:b%s:%s" % (
                         k, case["block"], short_hash(case["templates"])[:6]))
         else:
-            if any(s != sched_sigs[0] or True for s in sched_sigs[:1]) and \
-                    log.count:
+            if sched_sigs and log.count:
                 nontrivial.append("writers:%s:%s" % (
                     sched_sigs[0], short_hash([case["templates"],
                                                case.get("same_proc")])[:6]))
